@@ -222,6 +222,24 @@ NegFails(a, r) ==
        \cup (IF Valid(a.x) THEN C01Of(r) ELSE {})
 
 \* --------------------------------------------------------------------------
+\* Sum: the fold itself is pinned bit-for-bit by the determinism memo (spellings sum / explicit
+\* left fold share one key); here: the empty sum is zero, the result is normalised, and the total
+\* stays within n steps of the addition bound relative to the sum of magnitudes.
+SumItems(a) == IF a.t = "fl" THEN [i \in 1..Len(a.v) |-> [t |-> "f", w |-> a.v[i]]]
+               ELSE [i \in 1..Len(a.v) |-> [t |-> "tf", x |-> a.v[i]]]
+SumFails(a, r) ==
+  LET items == SumItems(a) IN
+  IF \E i \in 1..Len(items) : ~OkOperand(items[i], -900, 900) THEN {Skip}
+  ELSE IF r.t # "tf" THEN Fail("C03", "panic")
+  ELSE LET exact == FoldLeft(LAMBDA acc, it : DAdd(acc, ValOf(it)), DZero, items)
+           mags == FoldLeft(LAMBDA acc, it : DAdd(acc, DAbs(ValOf(it))), DZero, items)
+           n == Len(items)
+       IN C01Of(r)
+          \cup Chk(r.x.hi.k = "f" /\ r.x.lo.k = "f" /\
+                   DCmp(DScale2(DAbs(DSub(Value(r.x), exact)), 104), DMul(DInt(n + 1), mags)) <= 0, "C03", "sum_bound")
+          \cup (IF n = 0 THEN Chk(IsZeroTF(r.x), "C03", "empty_sum_not_zero") ELSE {})
+
+\* --------------------------------------------------------------------------
 ArithFails(op, A, r, de) ==
   CASE op = "add" \/ op = "sub" -> AddSubFails(op, A[1], A[2], r)
     [] op = "mul" -> MulFails(A[1], A[2], r)
@@ -235,5 +253,9 @@ ArithFails(op, A, r, de) ==
     [] op = "new_mul" -> NewMulFails(A[1].w, A[2].w, r)
     [] op = "new_div" -> NewDivFails(A[1].w, A[2].w, r)
     [] op = "from_f64" -> FromF64Fails(A[1].w, r)
+    [] op = "sum" -> SumFails(A[1], r)
+    [] op = "mul_add" -> IF OkOperand(A[1], -450, 450) /\ OkOperand(A[2], -450, 450) /\ OkOperand(A[3], -900, 900)
+                         THEN C01Of(r) ELSE {Skip}
+    [] op = "abs_sub" -> IF OkOperand(A[1], -1000, 1000) /\ OkOperand(A[2], -1000, 1000) THEN C01Of(r) ELSE {Skip}
     [] OTHER -> {<<"tool", "unknown_arith_op">>}
 =============================================================================
